@@ -94,6 +94,14 @@ def gen_case(rng):
       call['args'] = call['args'][:1] if '_selfname' in call else []
       call['kwargs'] = []
       tail += [call, {'op': 'log'}]
+  if rng.random() < 0.5:
+    # the cleared configuration locked again: calls under the lock see the bindings of *now*
+    tail.append({'op': 'finalize'})
+    for _ in range(rng.randint(1, 3)):
+      call = G.gen_call(rng, rng.choice(regs), G.gen_enter(rng, rng.choice(scopes)))
+      call['op'] = 'ecall'     # the store may hold %constants by now: the evaluating layer
+      tail.append(call)
+    tail += [{'op': 'operative'}, {'op': 'locked'}]
   return {'dom': 'gin', 'ops': list(regs) + pre + [clear] + tail, '_ntail': len(tail)}
 
 
